@@ -84,6 +84,30 @@ static void check_normalize(const char *fam, const UChar *s) {
     if (u_strcmp(n1, s) != 0) nontriv++;
 }
 
+/* Independent statement of "without regard to letter case and canonical equivalence": Unicode canonical caseless matching
+ * (D145), NFD(toCasefold(NFD(X))) == NFD(toCasefold(NFD(Y))), computed with ICU and without cif_normalize.  For a spelling
+ * and its upper- / lower-cased NFD form, cif_normalize must agree with it on whether the two match. */
+static int ref_form(const UChar *x, UChar *out, int cap) {
+    UChar d[700], f[700];
+    if (norm_with(NFD, x, d, 700) < 0 || fold(d, f, 700) < 0 || norm_with(NFD, f, out, cap) < 0) return -1;
+    return 0;
+}
+static void check_casematch(const char *fam, const UChar *a) {
+    UChar d[700], b[700], ra[700], rb[700], na[700], nb[700]; UErrorCode e; int which, want, got;
+    if (norm_with(NFD, a, d, 700) < 0) return;
+    for (which = 0; which < 2; which++) {
+        e = U_ZERO_ERROR;
+        if (which == 0) u_strToUpper(b, 700, d, -1, "", &e); else u_strToLower(b, 700, d, -1, "", &e);
+        if (U_FAILURE(e) || e == U_STRING_NOT_TERMINATED_WARNING) continue;
+        if (ref_form(a, ra, 700) < 0 || ref_form(b, rb, 700) < 0) continue;
+        if (N(a, na, 700) != CIF_OK || N(b, nb, 700) != CIF_OK) continue;     /* a disallowed character: judged elsewhere */
+        evals++;
+        want = (u_strcmp(ra, rb) == 0); got = (u_strcmp(na, nb) == 0);
+        if (want) nontriv++;
+        if (want != got) viol(fam, "%s and its %s-cased decomposed form %s are %s under canonical caseless matching, but cif_normalize gives %s and %s", hex(a), which ? "lower" : "upper", hex(b), want ? "the same name" : "different names", hex(na), hex(nb));
+    }
+}
+
 /* packet-name matching: created under a, looked up under b: found iff normalised forms are equal */
 static void check_packet_match(const char *fam, const UChar *a, const UChar *b) {
     UChar na[700], nb[700]; UChar *names[2]; cif_packet_tp *p = NULL; int rc, want;
@@ -234,6 +258,8 @@ static void all_codepoints(void) {
         if (c < 0xd800 || c > 0xdfff) {
             UChar w[16]; int k;
             check_normalize("normalize1", s);
+            if (ok) { UChar m[8]; int q = put_cp(m, c); check_casematch("casematch1", s); m[q] = 0x0323; m[q + 1] = 0; check_casematch("casematch1", m); m[q] = 0x0301; check_casematch("casematch1", m);
+                      m[q] = 0x0345; m[q + 1] = 0x0323; m[q + 2] = 0; check_casematch("casematch1", m); }
             w[0] = 'a'; k = 1 + put_cp(w + 1, c); w[k++] = 'b'; w[k] = 0; check_normalize("normalize1", w);
             k = put_cp(w, c); w[k++] = 0x0301; w[k++] = 0x0323; w[k] = 0; check_normalize("normalize-marks", w);
             { UChar w2[16], n1[64], n2[64]; int k2 = put_cp(w2, c); w2[k2++] = 0x0323; w2[k2++] = 0x0301; w2[k2] = 0;
@@ -301,6 +327,7 @@ static void tuples(void) {
         if (idx % NW != WK) continue;
         l = put_cp(s, I[i]); l += put_cp(s + l, I[j]); s[l] = 0;
         check_normalize("normalize2", s);
+        check_casematch("casematch2", s);
         name[0] = '_'; u_strcpy(name + 1, s);
         /* matching: created under s, looked up under NFD / NFC / fold and under the pair with swapped members */
         vn[0] = '_';
@@ -321,6 +348,7 @@ static void tuples(void) {
             if (idx % NW != WK) continue;
             l = put_cp(s, I[i]); l += put_cp(s + l, I[j]); l += put_cp(s + l, I[k]); s[l] = 0;
             check_normalize("normalize3", s);
+            check_casematch("casematch3", s);
         }
     }
     if (cif) cif_destroy(cif);
